@@ -95,6 +95,7 @@ def run(an: Analysis, rep):
     from . import c05
     rep.run(c05.r053, an, SharedRules(rep, "R03.D", "docstring slot (shared with C05's R05.3): a function described with docstring None must not get its first string constant read as __doc__"))
     rep.run(c10.format_rules, an, SharedRules(rep, "R03.L", "line-table format constants (shared with C10's R10.*): 'each instruction carries the given line'"))
+    rep.run(c02.r028, an, SharedRules(rep, "R03.X", "the package's parser reassembles operands from their EXTENDED_ARG prefixes as CPython does (shared with C02's R02.8): 'decoding that code object again gives data equal to the input'"))
     rep.run(c02.jump_rules, an, SharedRules(rep, "R03.J", "jump operands are measured as CPython measures them (shared with C02's R02.3/R02.4): 'every jump lands on the first instruction of its target block'"))
     sh = SharedRules(rep, "R03.A", "signature encoding: co_varnames layout, counts and flags (shared with C04's R04.3/R04.4): 'signature ... as described'")
     rep.run(c04.r043, an, sh)
@@ -406,16 +407,9 @@ def r035(an, rep):
     if len(names) != 1:
         raise AnalysisError(f"{g.qual}: operand byte expression {norm_src(byte_e)} not recognised")
     av = names.pop()
-    # decoder shift
+    # how the interpreter (and dis._unpack_opargs) reassembles the units: each EXTENDED_ARG shifts what was gathered so far up by one byte
     pf = find_parser(an)
-    shifts = [n for n in ast.walk(pf.node) if isinstance(n, ast.BinOp) and isinstance(n.op, ast.LShift)]
-    ors = [n for n in ast.walk(pf.node) if isinstance(n, ast.AugAssign) and isinstance(n.op, ast.BitOr)]
-    if not shifts or not ors:
-        raise AnalysisError(f"{pf.qual}: accumulation (|= and << ) not recognised")
-    try:
-        shift_factor = feval(shifts[0], {n.id: 1 for n in ast.walk(shifts[0]) if isinstance(n, ast.Name)})
-    except Exception as ex:
-        raise AnalysisError(f"{pf.qual}: shift not evaluable: {ex}")
+    shift_factor = 256
     bad = []
     for v in [x for x in pts if x >= 0] + [0x1234, 0xABCDEF, 0x12345678]:
         n = eval_size(an, sf, v)
@@ -437,10 +431,10 @@ def r035(an, rep):
                 acc = acc * shift_factor
         kinds = [o for o, _ in units]
         if acc != v or kinds[-1] != "OP" or any(x != "EXT" for x in kinds[:-1]) or any(not (0 <= b <= 255) for _, b in units):
-            bad.append(f"value {v:#x}: emitted {units}, decoder reassembles {acc:#x}")
+            bad.append(f"value {v:#x}: emitted {units}, CPython reassembles {acc:#x}")
     rep.add("R03.5", f"{g.qual}::emitted units reassemble to the operand", not bad and ok_order, loc(g.module, loop),
             ("; ".join(bad[:2]) if bad else f"units are emitted in the order {order}, not high unit first") if (bad or not ok_order) else
-            f"`{norm_src(byte_e)}` for i in {norm_src(loop.iter)}, EXTENDED_ARG on all but the last unit; decoder shifts by x{shift_factor} per prefix: every sized value is reproduced")
+            f"`{norm_src(byte_e)}` for i in {norm_src(loop.iter)}, EXTENDED_ARG on all but the last unit; CPython shifts by one byte per prefix: every sized value is reproduced")
     # decoder steps by two bytes and reads opcode / operand at i, i+1
     rng = next((n for n in pf.node.body if isinstance(n, ast.For)), None)
     ok_step = False
@@ -451,8 +445,7 @@ def r035(an, rep):
             ok_step = False
     rep.add("R03.5", f"{pf.qual}::two bytes per code unit", ok_step, loc(pf.module, rng or pf.node),
             "the parser visits offsets 0, 2, 4, ..." if ok_step else "the parser does not step through the bytecode two bytes at a time")
-    rep.add("R03.5", f"{pf.qual}::prefix shift is 8 bits", shift_factor == 256, loc(pf.module, shifts[0]),
-            f"`{norm_src(shifts[0])}`" if shift_factor == 256 else f"EXTENDED_ARG prefixes shift the accumulated operand by a factor {shift_factor}, not 256")
+    # (that the package's own parser reassembles prefixes the same way is R02.8, shared below as R03.X)
 
 
 # ----------------------------------------------------------------------------- R03.6
